@@ -5,6 +5,7 @@ import Nstd.Callback.LemmasTerm
 import Nstd.Callback.LemmasOrder
 import Nstd.Callback.LemmasArgs
 import Nstd.Callback.LemmasAudit
+import Nstd.Callback.LemmasConnOrder
 /-
   Property C12 — signals reach exactly the connected slots, safely under re-entrancy.
 
@@ -47,6 +48,48 @@ theorem emit_refines (P : Prog) (ne nl fuel : Nat) (ops : List Action) :
     (runOps machine P fuel (Run.init State.fresh ne nl) ops).log =
       (runOps Spec.machine P fuel (Run.init SState.fresh ne nl) ops).log :=
   (runOps_rel P fuel ops (init_rel ne nl)).log
+
+/-- **invocation_order_is_connection_order.**  The uid of a connection is the value of the clock when
+    `connect` made it (the clock only grows): older = smaller uid.  In every state reachable in the middle of
+    any nesting of emissions of any program (`Sim m s K` with the loop of an emission of (e, g) pending):
+    (1) the live connections of the signal are listed in connection order (uids strictly increasing) and all
+    lie in the past, so the connection the next `connect` makes is the youngest and goes to the end;
+    (2) the connections this emission will still invoke (snapshot, still live) are in connection order;
+    (3) when the loop of the model decides to invoke (l, x), that is the OLDEST of them: every connection the
+    emission invokes later is younger.  So each emission invokes its slots oldest connection first (with
+    `emit_refines`: for every program the log of the code's model is the log of this ordered walk), and by
+    `reconnect_is_youngest` a disconnect + connect of the same pair makes the youngest connection.
+    The model-side form of (1), checked at every step of every run by `no_dangling` (`Audit.order`): every slot
+    list is strictly increasing in the time stamp `connect` gave its entries. -/
+theorem invocation_order_is_connection_order {m : State} {s : SState} {K : MStack} {fid e g : Nat} {idx : Option Nat}
+    {snap : List Nat} (h : Sim m s (((fid, idx), ((e, g), snap)) :: K)) :
+    (s.sig e g).live.Pairwise (fun a b => a.uid < b.uid) ∧ (∀ c ∈ (s.sig e g).live, c.uid < s.clock) ∧
+    (snap.filter (isLive (s.sig e g).live)).Pairwise (· < ·) ∧
+    ∀ l x p', machine.next m fid idx = .call l x p' →
+      ∃ c rest, nextLive (s.sig e g).live snap = some (c, rest) ∧ c ∈ (s.sig e g).live ∧ c.receiver = l ∧ c.slot = x ∧
+        ∀ u ∈ rest.filter (isLive (s.sig e g).live), c.uid < u :=
+  ⟨(live_in_connection_order h e g).1, (live_in_connection_order h e g).2, pending_in_connection_order h,
+    fun _ _ _ hc => next_is_oldest h hc⟩
+
+/-- a disconnect followed by a connect of the same pair (inside or outside an emission) removes the oldest
+    connection of that pair and appends a new one born now: the re-connected slot is the youngest connection -/
+theorem reconnect_is_youngest (s : SState) (e g l x : Nat) :
+    ((Spec.connect e g l x (Spec.disconnect e g l x s)).sig e g).live =
+      removeOldest l x (s.sig e g).live ++ [{ uid := s.clock, receiver := l, slot := x }] := by
+  simp [Spec.connect, Spec.disconnect, SState.setSig]
+
+/-- **Connection order after every top-level call.**  After any history: every signal's live list in the
+    specification is strictly increasing in the time of connection, and it is, entry by entry, the emitter's slot
+    list (`bookkeeping_consistent`): the emitter side lists the connections in the order in which they were made
+    (as the listener side does, `listener_side_exact`). -/
+theorem connection_order_after_history (P : Prog) (ne nl fuel : Nat) (ops : List Action) (e g : Nat) :
+    let m := (runOps machine P fuel (Run.init State.fresh ne nl) ops).m
+    let s := (runOps Spec.machine P fuel (Run.init SState.fresh ne nl) ops).m
+    (s.sig e g).live.Pairwise (fun a b => a.uid < b.uid) ∧ (∀ c ∈ (s.sig e g).live, c.uid < s.clock) ∧
+      ∀ d, m.data e g = some d → d.slots.Pairwise (fun a b => a.node < b.node) := by
+  intro m s
+  have h : Sim m s [] := (runOps_rel P fuel ops (init_rel ne nl)).sim
+  exact ⟨(live_in_connection_order h e g).1, (live_in_connection_order h e g).2, fun d hd => h.sl.sorted e g d hd⟩
 
 /-- **Argument forwarding.**  `emit(signal, arg0, …)` takes its arguments by value of the declared
     parameter types and its loop hands them to every slot it invokes (Callback.hpp:42-59; in the
@@ -386,6 +429,32 @@ example : (runOps Spec.machine d18 20 (Run.init SState.fresh 1 2) d18ops).log.re
     [.emitBegin 0 0 3, .call 0 0 3, .emitBegin 0 0 4, .call 1 0 4, .emitEnd, .call 1 0 3, .emitEnd,
      .emitBegin 0 0 5, .call 1 0 5, .call 1 1 5, .emitEnd, .emitBegin 0 0 6, .call 1 1 6, .emitEnd] := by decide
 
+/-! ### the situation of seeded change C12-5 (corpus/C12/s11): connections A.toggle, B.slot, C.slot in this order; in the
+    second emission A disconnects B and connects it again: B is not invoked in that emission and is the youngest
+    connection afterwards (A, C, B); toggling C outside an emission gives A, B, C again -/
+
+def toggle : Prog :=
+  { script := fun l s k => if l = 0 ∧ s = 0 ∧ k = 1 then [.disconnect 0 0 1 0, .connect 0 0 1 0] else [] }
+
+def toggleOps : List Action :=
+  [.connect 0 0 0 0, .connect 0 0 1 0, .connect 0 0 2 0, .emit 0 0 0, .emit 0 0 0, .emit 0 0 0, .emit 0 0 0,
+   .disconnect 0 0 2 0, .connect 0 0 2 0, .emit 0 0 0]
+
+example : (runOps machine toggle 20 (Run.init State.fresh 1 3) toggleOps).log.reverse =
+    [.emitBegin 0 0 0, .call 0 0 0, .call 1 0 0, .call 2 0 0, .emitEnd,
+     .emitBegin 0 0 0, .call 0 0 0, .call 2 0 0, .emitEnd,
+     .emitBegin 0 0 0, .call 0 0 0, .call 2 0 0, .call 1 0 0, .emitEnd,
+     .emitBegin 0 0 0, .call 0 0 0, .call 2 0 0, .call 1 0 0, .emitEnd,
+     .emitBegin 0 0 0, .call 0 0 0, .call 1 0 0, .call 2 0 0, .emitEnd] := by decide
+
+example : (runOps Spec.machine toggle 20 (Run.init SState.fresh 1 3) toggleOps).log =
+    (runOps machine toggle 20 (Run.init State.fresh 1 3) toggleOps).log := by decide
+
+/-- the live list after the three emissions: uids 0 (A), 2 (C), 3 (B, re-connected at clock 3 inside the second
+    emission; its old connection had uid 1) -/
+example : (((runOps Spec.machine toggle 20 (Run.init SState.fresh 1 3) (toggleOps.take 6)).m.sig 0 0).live.map
+    (fun c => (c.uid, c.receiver))) = [(0, 0), (2, 2), (3, 1)] := by decide
+
 /-! ### cross-emitter nesting (corpus/C12/s03): emitter 0 emits signal 1 at depth 2 (its slot re-emits), the
     inner slot emits on emitter 1, whose slot destroys emitter 0: both activations of emitter 0 stop, the later
     slot (2, 1) is never invoked; the logs of model and specification, computed -/
@@ -427,6 +496,9 @@ example : Sim midModel midSpec [((0, some 0), ((0, 0), [0]))] :=
   sim_begin 0 0 (sim_connect 0 0 0 0 sim_init rfl rfl) rfl
 
 example : machine.next midModel 0 (some 0) = .call 0 0 (some 1) := rfl
+
+/-- ... so `invocation_order_is_connection_order` speaks about an actual invocation there: the connection with uid 0 -/
+example : ∃ c rest, nextLive (midSpec.sig 0 0).live [0] = some (c, rest) ∧ c.uid = 0 ∧ c.receiver = 0 := ⟨_, _, rfl, rfl, rfl⟩
 
 /-- the hypothesis of `fuel_irrelevant` is met by the D18 program with fuel 20 -/
 example : (runOps machine d18 20 (Run.init State.fresh 1 2) d18ops).oof = false := by decide
